@@ -122,8 +122,6 @@ impl<'a> EnumMessage<'a> {
                     #(#where_predicates,)*
                     #contract_predicate
                 {
-                    use #unique_enum_name::*;
-
                     match self {
                         #(#match_arms,)*
                         #phatom_match_arm
